@@ -158,7 +158,21 @@ pub fn parse_conf(conf: &str, filename: &str) -> Result<ConfigNode, ConfigError>
     }
 
     // Parses the main section
-    parse_section("server", &mut lines, filename, 0)
+    let server = parse_section("server", &mut lines, filename, 0)?;
+
+    // Nothing but comments and blank lines may follow the main section, otherwise an unmatched `}` would
+    //   silently discard the rest of the configuration
+    while let Some(line) = lines.next() {
+        if !clean_up(line).is_empty() {
+            return Err(ConfigError::new(
+                "Unexpected content after the end of the `server` section",
+                filename,
+                lines.current_line(),
+            ));
+        }
+    }
+
+    Ok(server)
 }
 
 /// Recursively parses a section of the configuration.
@@ -308,6 +322,13 @@ fn include(
 
             let mut iter = TracebackIterator::from(buf.lines());
             let parsed_node = parse_section("temp_included_section", &mut iter, path, depth + 1)?;
+
+            // The section must have been closed by the brace added above, not by an unmatched one in the file,
+            //   which would silently discard the rest of the file
+            let closing_line = iter.current_line();
+            if iter.next().is_some() {
+                return Err(ConfigError::new("Unexpected `}`", path, closing_line));
+            }
 
             match parsed_node {
                 ConfigNode::Section(_, children) => Ok(children),
